@@ -289,16 +289,16 @@ func (s *Stack) GetMap(expr string) (map[string]any, bool) {
 // Includes all accessible values from stack and struct fields.
 func (s *Stack) EnvMap() map[string]any {
 	result := make(map[string]any)
+	// Struct fields from rootData (if available) have the lowest precedence,
+	// matching Lookup, which consults them only after every scope.
+	if s.rootData != nil {
+		ireflect.PopulateStructFields(result, s.rootData)
+	}
 	// Iterate through stack from bottom to top, with top overriding bottom
 	for i := 0; i < len(s.stack); i++ {
 		for k, v := range s.stack[i] {
 			result[k] = v
 		}
-	}
-
-	// Also include struct fields from rootData (if available)
-	if s.rootData != nil {
-		ireflect.PopulateStructFields(result, s.rootData)
 	}
 	return result
 }
